@@ -597,16 +597,40 @@ def dictGet (k : Str) : List (Str × Str) → Option Str
   | [] => none
   | (k', v') :: rest => if k' = k then some v' else dictGet k rest
 
-/-- one `;`-separated piece of an MLSx line: a `key=value` fact, or (no `=`) the name -/
-def factStep (st : Option Str × List (Str × Str)) (fact : Str) : Option Str × List (Str × Str) :=
+/-- one `;`-separated piece of the facts part: `key, sep, value = fact.partition("=")`;
+    `if sep: facts[key.strip().lower()] = value.strip()` (a piece without `=` is ignored) -/
+def factStep (d : List (Str × Str)) (fact : Str) : List (Str × Str) :=
   let p := partition '=' fact
-  if p.2.1 then (st.1, dictSet (lower (strip p.1)) (strip p.2.2) st.2)
-  else (some (basename (strip (rstripSlash fact))), st.2)
+  if p.2.1 then dictSet (lower (strip p.1)) (strip p.2.2) d else d
 
-/-- `FTPFS._parse_facts(line)` -/
+/-- `s.endswith(";")` -/
+def endsWithSemi (s : Str) : Bool := s.getLast? == some ';'
+
+/-- the name an entry's pathname denotes:
+    `if pathname not in ("", "/"): name = basename(pathname.rstrip("/")) or None`, then
+    `name if name not in (".", "..") else None` -/
+def pathName (pathname : Str) : Option Str :=
+  let name : Option Str :=
+    if pathname = [] ∨ pathname = ['/'] then none
+    else
+      let b := basename (rstripSlash pathname)
+      if b = [] then none else some b
+  if name = some ['.'] ∨ name = some ['.', '.'] then none else name
+
+/-- `not sep or (facts_text and not facts_text.endswith(";"))`: the text has no facts part -/
+def noFactsPart (line : Str) : Bool :=
+  let p := partition ' ' line
+  !p.2.1 || (!p.1.isEmpty && !endsWithSemi p.1)
+
+/-- `FTPFS._parse_facts(line)` (RFC 3659 7.2, `entry = [ facts ] SP pathname`): the line is cut at
+    its first space; without a space, or when the text before it is non-empty and does not end
+    with `;`, the whole line is the pathname and there are no facts -/
 def parseFacts (line : Str) : Option Str × List (Str × Str) :=
-  let r := (splitOn ';' line).foldl factStep (none, [])
-  (if r.1 = some ['.'] || r.1 = some ['.', '.'] then none else r.1, r.2)
+  let p := partition ' ' line
+  let noFacts : Bool := noFactsPart line
+  let factsText : Str := if noFacts then [] else p.1
+  let pathname : Str := if noFacts then line else p.2.2
+  (pathName pathname, (splitOn ';' factsText).foldl factStep [])
 
 /-- `calendar.timegm((y, m, d, h, mi, s))`: `ValueError` unless `date(y, m, 1)` exists -/
 def timegm (y m d h mi s : Int) : Res Int :=
@@ -659,9 +683,20 @@ def mlsdTime (facts : List (Str × Str)) (k : Str) : Res (Option (Option Int)) :
     | .ok t => .ok (some t)
     | .err e => .err e
 
+/-- `[\r\n]` -/
+def isEol (c : Char) : Bool := c == '\r' || c == '\n'
+
+/-- `line.rstrip("\r\n")` -/
+def rstripEol (s : Str) : Str := (s.reverse.dropWhile isEol).reverse
+
+/-- `line[1:] if line.startswith(" ") else line` (the one space a MLST reply line starts with) -/
+def dropLeadSpace : Str → Str
+  | ' ' :: rest => rest
+  | s => s
+
 /-- one line of `_parse_mlsx`: `.ok none` = skipped -/
 def parseMlsxLine (line : Str) : Res (Option MlsdInfo) :=
-  let nf := parseFacts (strip line)
+  let nf := parseFacts (dropLeadSpace (rstripEol line))
   match nf.1 with
   | none => .ok none
   | some name =>
@@ -815,23 +850,32 @@ def Stripped (s : Str) : Prop := Stops isSpace s ∧ Stops isSpace s.reverse
 
 def factStr (kv : Str × Str) : Str := kv.1 ++ '=' :: kv.2
 
-/-- what the generators / servers emit for one fact -/
+/-- one fact a line can state: RFC 3659 `fact = factname "=" value`, `value = *SCHAR` — neither
+    part contains `;` (it ends the fact) or a space (the first space ends the facts part), the key
+    contains no `=` (the value may: `type=OS.unix=slink:/target`), and neither has outer white
+    space of any kind (the code `strip()`s both) -/
 structure WFFact (kv : Str × Str) : Prop where
   k_eq : '=' ∉ kv.1
   k_semi : ';' ∉ kv.1
+  k_sp : ' ' ∉ kv.1
   v_semi : ';' ∉ kv.2
+  v_sp : ' ' ∉ kv.2
   k_strip : Stripped kv.1
   v_strip : Stripped kv.2
 
+/-- the names an entry can state verbatim: everything except the empty name, names containing
+    `/` (the entry's text is a *pathname*, its last component is the name) and `.` / `..`.
+    `;`, `=`, inner, leading and trailing blanks, any other white space and any letter case are
+    all fine (`C20.name_verbatim_iff`: this is exact). -/
 structure WFName (name : Str) : Prop where
   ne : name ≠ []
-  semi : ';' ∉ name
-  eq : '=' ∉ name
   slash : '/' ∉ name
-  strip : Stripped name
   dot : name ≠ ['.']
   dotdot : name ≠ ['.', '.']
 
+/-- the name does not end with CR or LF (`_parse_mlsx` removes the line terminator with
+    `rstrip("\r\n")`, i.e. every trailing CR / LF) -/
+def NoEol (name : Str) : Prop := Stops isEol name.reverse
 
 /-! ### Windows NT lines: pieces and well-formedness -/
 
